@@ -223,6 +223,8 @@ def _wrap(it, e, cache):
     def iterfind(it2, a, k, e=e):
         want = a[0]
         local = want.split(':')[-1]
+        if want.startswith('.//'):        # ElementPath: all descendants
+            return [_wrap(it2, c, cache) for c in _all(e)[1:] if c.tag == local]
         return [_wrap(it2, c, cache) for c in e.children if c.tag == local]
     o.attrs['iterfind'] = PyFunc(iterfind, 'iterfind')
     o.attrs['iter'] = PyFunc(lambda it2, a, k, e=e: [_wrap(it2, x, cache) for x in _all(e)], 'iter')
@@ -397,6 +399,16 @@ def _converters(ctx, mdl):
     ob('R17.4').run(frect, 'rect (only rx): ry defaults to rx',
                     lambda it: _parse_d(it, it.call(it.closure_of('svg_to_paths.rect2pathd'), [dict(ra1)], {})),
                     lambda v: _cmp_segments(v, exp_r1))
+    # only ry given: rx defaults to ry (SVG 9.2)
+    ra2 = dict(rect_attrs, ry=num_attr('ry'))
+    arc2 = lambda s, e: ('Arc', s, RY + I * RY, Rat.const(0), Rat.const(0), Rat.const(1), e)
+    exp_r2 = [line(pt(X + RY, Y), pt(X + W - RY, Y)), arc2(pt(X + W - RY, Y), pt(X + W, Y + RY)),
+              line(pt(X + W, Y + RY), pt(X + W, Y + H - RY)), arc2(pt(X + W, Y + H - RY), pt(X + W - RY, Y + H)),
+              line(pt(X + W - RY, Y + H), pt(X + RY, Y + H)), arc2(pt(X + RY, Y + H), pt(X, Y + H - RY)),
+              line(pt(X, Y + H - RY), pt(X, Y + RY)), arc2(pt(X, Y + RY), pt(X + RY, Y))]
+    ob('R17.4').run(frect, 'rect (only ry): rx defaults to ry',
+                    lambda it: _parse_d(it, it.call(it.closure_of('svg_to_paths.rect2pathd'), [dict(ra2)], {})),
+                    lambda v: _cmp_segments(v, exp_r2))
     # ---- circle / ellipse
     fell = mdl.func('svg_to_paths.ellipse2pathd')
     CX, CY, R = Rat.sym('cx'), Rat.sym('cy'), Rat.sym('r')
